@@ -135,6 +135,10 @@ type Step struct {
 func (s Step) String() string {
 	switch s.K {
 	case STx, SView:
+		who := ""
+		if s.Task != 0 || s.DB != 0 {
+			who = fmt.Sprintf(" task=%d db=%d", s.Task, s.DB)
+		}
 		ops := make([]string, len(s.Ops))
 		for i, o := range s.Ops {
 			ops[i] = o.String()
@@ -143,7 +147,7 @@ func (s Step) String() string {
 		if s.End != "" {
 			e = " end=" + s.End
 		}
-		return fmt.Sprintf("#%d %s[%s]%s", s.ID, s.K, strings.Join(ops, "; "), e)
+		return fmt.Sprintf("#%d%s %s[%s]%s", s.ID, who, s.K, strings.Join(ops, "; "), e)
 	case SAdvance:
 		return fmt.Sprintf("#%d advance %dns", s.ID, s.D)
 	}
@@ -175,6 +179,19 @@ func (p *Program) String() string {
 	}
 	for _, f := range p.Faults {
 		sb.WriteString("  fault " + f.String() + "\n")
+	}
+	if len(p.Schedule) > 0 {
+		// run-length encoded: task x number of consecutive scheduling decisions
+		sb.WriteString("  schedule")
+		for i := 0; i < len(p.Schedule); {
+			j := i
+			for j < len(p.Schedule) && p.Schedule[j] == p.Schedule[i] {
+				j++
+			}
+			fmt.Fprintf(&sb, " t%dx%d", p.Schedule[i], j-i)
+			i = j
+		}
+		sb.WriteString("\n")
 	}
 	return sb.String()
 }
